@@ -36,6 +36,7 @@ func runC06(c *Ctx) {
 	c05WG(c)
 	dispatchDoneLast(c)
 	dispatchOnce(c)
+	layoutAgreement(c)
 }
 
 // guardedFields lists struct fields and the mutex field that must be held to touch them.
